@@ -384,6 +384,21 @@ def explore(run, tier):
                 if len(body) == 12:
                     cases.append({'k': 'msg', 'cfg': 'pkg', 'codec': codec, 'hex': 0,
                                   'data': ('1240'.encode(codec) + bm([4]) + body).hex(), 'mut': 'int-corpus'})
+    # card-number elements (the documented PAN and PAN-PREFIX processors, in a caller's configuration) holding characters
+    # that str.isdigit() calls digits and int() does not read (superscripts), circled digits, Arabic-Indic digits where the
+    # codec has them, blanks, signs — at the first, a middle and the last position
+    for proc in ('PAN', 'PAN-PREFIX'):
+        pcfg = {'2': {'field_name': 'pan', 'field_type': 'LLVAR', 'field_length': 0, 'field_processor': proc},
+                '3': {'field_name': 'pc', 'field_type': 'FIXED', 'field_length': 6}}
+        for codec in ('latin_1', 'cp500', 'cp037'):
+            odd = [ch for ch in '\xb2\xb3\xb9\xbc\xbd \xa0-+.x' if len(ch.encode(codec, 'ignore')) == 1]
+            for ch in odd:
+                for at in (0, 7, 14, 15):
+                    pan = list('5412750000000001')
+                    pan[at] = ch
+                    body = '16'.encode(codec) + ''.join(pan).encode(codec) + '000000'.encode(codec)
+                    cases.append({'k': 'msg', 'cfg': pcfg, 'codec': codec, 'hex': 0,
+                                  'data': ('1240'.encode(codec) + bm([2, 3]) + body).hex(), 'mut': 'pan-corpus'})
     for _ in range(1500 if not thorough else 30000):
         n = rng.choice([0, 3, 4, 19, 20, 21, 36, 40, rng.randrange(0, 200)])
         data = bytes(rng.getrandbits(8) for _ in range(n))
